@@ -410,13 +410,16 @@ func decodeTx(ts *TxStep) (msgs []sdk.Msg, sigFail bool, err error) {
 					ok = false
 				}
 			}()
-			sg := m.GetSigners()
-			for _, s := range sg {
+			// Every account a message requires must have signed; the only signature a simulated tx
+			// carries is its signer's (who also pays the fee). A message that requires nobody is
+			// covered by the fee payer's signature - as with the real ante handler, which verifies
+			// the union of the messages' signers plus the fee payer.
+			for _, s := range m.GetSigners() {
 				if s.String() != ts.Signer {
 					return false
 				}
 			}
-			return len(sg) > 0
+			return true
 		}()
 		if !ok {
 			sigFail = true
@@ -499,8 +502,10 @@ func (w *World) execTx(st *Step) {
 	}
 	// the chain gets the messages as spelled; the checkers get a copy with canonical addresses
 	cmsgs, _, _ := decodeTx(ts)
-	for _, m := range cmsgs {
-		CanonMsg(m)
+	if w.Property != "C20" { // C20 is about strings derived from the owner field exactly as spelled
+		for _, m := range cmsgs {
+			CanonMsg(m)
+		}
 	}
 	t := &TxCtx{StepIdx: w.StepIdx, Step: ts, Signer: ts.Signer, Msgs: cmsgs, Pre: w.Cur, BlockTime: w.curBlock.Time, SigFail: sigFail}
 	w.Stats.Txs++
